@@ -253,6 +253,7 @@ def run(ctx, sess):
     ctx.rule('C02.7', 'the writer builds its variances from squared deviations (two passes), never as mean of squares minus square of the mean (sign analysis of every value stored into a variance accumulator of wr_fsr.c)')
     ctx.rule('C02.8', 'the sample converter fills what it is asked for: traced for every accepted data type and counts around the byte boundaries (1, 2, 7, 8, 9, 15, 16, 17, 64), jls_dt_buffer_to_f64 stores every entry 0..samples-1 of its destination')
     ctx.rule('C02.4', 'sample-id frames on the statistics path: the sample_id_offset is applied exactly once to each value and no compare mixes an api-relative id with a file id')
+    ctx.rule('C02.9', 'the entries a request is answered from are those of the summary chunk it walks: after a nested read for an unaligned edge (which loads other chunks into the same buffer) the summary chunk is read again before its entries are used (shared with C10.28)')
     ctx.rule('C02.5', 'shared: non-finite values are skipped at every level (C09.4); accumulator algebra of statistics.c - alias safety, empty operands, extremes, non-negative variance, no division by a zero count (C20.1-C20.5); the summary payload length covers every entry of either width (C05.11); the level-0 scratch is filled only up to its allocated length (C10.23)')
     columns_rule(ctx, P, 'C02.1')
     extremes_rule(ctx, P, 'C02.2')
@@ -269,6 +270,7 @@ def run(ctx, sess):
     relay(ctx, sess, _c20.run, {'C20.1': 'C02.5', 'C20.2': 'C02.5', 'C20.3': 'C02.5', 'C20.4': 'C02.5', 'C20.5': 'C02.5'}, minimum=10)
     relay(ctx, sess, _c05.run, {'C05.11': 'C02.5'}, minimum=1)
     relay(ctx, sess, _c10.run, {'C10.23': 'C02.5'}, minimum=2)
+    relay(ctx, sess, _c10.run, {'C10.28': 'C02.9'}, only_functions=('fsr_statistics', 'jls_core_fsr_statistics', 'rd_stats_chunk'), minimum=1)
     from . import c15 as _c15
     relay(ctx, sess, _c15.run, {'C15.10': 'C02.5', 'C15.12': 'C02.5'}, minimum=1)
 
